@@ -8,7 +8,10 @@ From VQ Require Import Model.Einops Glue.EinopsGlueBase Glue.EinopsGlueHeads Glu
 From VQ Require Import Proofs.EinopsProofs.
 From VQ Require Import Glue.EinopsGlueMore.
 From VQ Require Import Glue.Pin_fp_C10.
+From VQ Require Import Proofs.EinopsRepeat.
 Import ListNotations.
+
+(* implicit *)
 
 (* implicit *)
 
@@ -517,3 +520,28 @@ Theorem C10_tie_source_footprint :
   fp_C10.fp_C10 = pinned_fp_C10.
 Proof. exact (@Pin_fp_C10.pin_fp_C10). Qed.
 Print Assumptions C10_tie_source_footprint.
+
+(* implicit *)
+Theorem C10_repeat_broadcasts :
+  forall (p : pattern) (e : env) (A : Type) (X : list nat -> A) (o1 o2 : list nat),
+       wf_repeat p = true ->
+       (forall n : string,
+        @In string n (names_of (lhs p)) -> lookup (sdecode e (rhs p) o1) n = lookup (sdecode e (rhs p) o2) n) ->
+       @rearr A p e X o1 = @rearr A p e X o2.
+Proof. exact (@EinopsRepeat.repeat_broadcasts). Qed.
+Print Assumptions C10_repeat_broadcasts.
+
+Theorem C10_repeat_in_range :
+  forall (p : pattern) (e : env) (o : list nat),
+       wf_repeat p = true ->
+       env_pos e (rhs p) -> in_range e (rhs p) o -> in_range e (lhs p) (index_map p e o).
+Proof. exact (@EinopsRepeat.repeat_in_range). Qed.
+Print Assumptions C10_repeat_in_range.
+
+Theorem C10_repeat_covers_input :
+  forall (p : pattern) (e : env) (i : list nat),
+       wf_repeat p = true ->
+       env_pos e (rhs p) ->
+       in_range e (lhs p) i -> exists o : list nat, in_range e (rhs p) o /\ index_map p e o = i.
+Proof. exact (@EinopsRepeat.repeat_covers_input). Qed.
+Print Assumptions C10_repeat_covers_input.
